@@ -9,7 +9,9 @@ Leg D: spec/Text/Codec.tla - Escape/Unescape, UrlEncode/UrlDecode, B64Enc/B64Dec
        the size arithmetic for 0..1024 (4096).
 Leg B: harness/text/codec_drv.cpp calls util::escape (3 overloads), urlencode (3), urldecode (2),
        b64url::encode/decode (string, pointer, stream), encoded_size/decoded_size, filters::escape /
-       urlencode / base64_urlencode and the text / textarea widgets' rendering; every call is an event
+       urlencode / base64_urlencode (also fed by ONE streamable object that writes several pieces: all 2- and
+       3-piece length combinations around the filters' 128-byte buffer, char-by-char, random piece sequences,
+       booster::locale::format; judged on the concatenation) and the text / textarea widgets' rendering; every call is an event
        judged by CodecTrace.tla: property layer = the statement's predicates, mechanism layer (Strict)
        = output equals the TLA+ function (MODEL-DRIFT only).
 """
@@ -135,6 +137,10 @@ def run(ctx):
         specs.append(("sizes-%d" % i, ["sizes", a, b], {}))
     specs.append(("ptr1mod4", ["ptr1mod4"], {"known": "ptr1mod4", "max_rejects": 1}))
     specs.append(("urlsb", ["urlsb"], {"known": "urlsb", "max_rejects": 1}))
+    # template filters fed by one streamable object that writes several pieces (filterbuf's 128-byte buffering)
+    npc = 3 if q else 8
+    for i in range(npc):
+        specs.append(("pieces-%d" % i, ["pieces", i, npc], {}))
     nrow = 4 if q else 8
     for i in range(nrow):
         specs.append(("rows-%d" % i, ["rows", 257 * i // nrow, 257 * (i + 1) // nrow, "all"], {}))
